@@ -69,6 +69,15 @@ WHAT = {
 }
 
 
+_GENERIC = [("state-vars", "audited_vars", "pkg_vars", "no package-level state besides the audited registries, selector cache and constants ({pkg_vars} variables)"),
+            ("state-fields", "audited_fields", 'by_prefix "genql." struct_fields', "every struct field of package genql is audited ({struct_fields} fields in all packages)")]
+for _p in ("C10", "C11", "C13", "C14", "C17", "C18", "C19", "C20"):
+    WHAT.setdefault(_p, [])
+    WHAT[_p] = WHAT[_p] + [w for w in _GENERIC if w[0] not in [x[0] for x in WHAT[_p]]]
+WHAT["C19"].append(("state-writes", "audited_writes", 'by_prefix "genql." field_writes', "every assignment to a struct field is by an audited writer (a failed call leaves nothing behind in the query)"))
+WHAT["C20"].append(("state-writes", "audited_writes", 'by_prefix "genql." field_writes', "every assignment to a struct field is by an audited writer (variables are written by SETVAR / WithVars only)"))
+
+
 def make(pid, prev):
     def structural(ctx):
         out = list(prev(ctx)) if prev else []
